@@ -171,6 +171,25 @@ def patched(module, name, value):
 
 
 @contextlib.contextmanager
+def spy(bm):
+    """Record the (ta, tb) of every call made on this very Brownian object, without wrapping it: wrappers written in the
+    library (ReverseBrownian ...) and the solvers see the genuine object with all its attributes. Yields the log (a list)."""
+    cls = type(bm)
+    real = cls.__call__
+    log = []
+
+    def call(self, ta, tb=None, *a, **k):
+        if self is bm:
+            log.append((float(ta), None if tb is None else float(tb)))
+        return real(self, ta, tb, *a, **k)
+    cls.__call__ = call
+    try:
+        yield log
+    finally:
+        cls.__call__ = real
+
+
+@contextlib.contextmanager
 def labelled_noise(K, dtype=torch.float64):
     """Replace brownian_interval._randn by a map seed -> one-hot e_k in R^K (sample shape must be (K,)).
     Yields the registry {seed_value: index}. Raises IndexError (as HarnessError upstream) if K is too small."""
